@@ -8,10 +8,12 @@
  * contract to one function name, and some functions need a different pre-state family per
  * group (freshly initialised table vs. table in use).
  */
-#define VF_KEEP_UNIT 16
-#include "vf.h"
 #include <stdlib.h>
 #include "cstl/hash.h"
+/* realloc model: the preserved ghost window is one bucket, copied as a typed element */
+#define VF_KEEP_UNIT 16
+#define VF_KEEP_STRUCT struct cstl_hash_bucket
+#include "vf.h"
 #ifndef VF_CHAIN
 #define VF_CHAIN 0
 #endif
@@ -93,13 +95,29 @@ _Bool vf_walk_stopped;                 /* a non-zero result has been returned   
                          __CPROVER_POINTER_OFFSET(bk) / H_NB < (h)->bucket.capacity)
 #define H_BUCKET_IDX(bk) (__CPROVER_POINTER_OFFSET(bk) / H_NB)
 /* a valid _Bool object holds 0 or 1 (type invariant of the inputs); stamps are compared as bytes */
+/* stamps are compared as the 8-bit objects they are (CBMC compares _Bool objects bit for bit);
+ * H_CANON states the type invariant.  Byte-wise access through a char pointer is avoided: it makes
+ * CBMC flatten the whole symbolic bucket array (20x formula size, measured). */
+#ifdef VF_BYTE_STAMPS
+/* the byte-wise spelling of the same two predicates; used by the one group (hash.get_bucket)
+ * where CBMC 6.11 gives an inconsistent verdict for the typed spelling after two successive
+ * whole-array havocs (measured; the two spellings are equivalent: see DESIGN.md section 10) */
 #define H_BYTE(x)       (*(const unsigned char *)&(x))
+#define H_CANON(x)      (H_BYTE(x) <= 1)
+#define H_CANON_OLD(x)  (OLD(H_BYTE(x)) <= 1)
+#define H_CANON_ENTRY(x) (__CPROVER_loop_entry(H_BYTE(x)) <= 1)
+#else
+#define H_BYTE(x)       (x)
+#define H_CANON(x)      ((x) == (_Bool)0 || (x) == (_Bool)1)
+#define H_CANON_OLD(x)  H_CANON(OLD(x))
+#define H_CANON_ENTRY(x) H_CANON(__CPROVER_loop_entry(x))
+#endif
 /* sweep invariant, stated for the ghost index g (arbitrary, so for every bucket):
  * buckets below the sweep position are clean; during a grow the added buckets are clean */
 #define H_CLEAN_AT(h, g) (H_BYTE((h)->bucket.at[g].cst) == H_BYTE((h)->bucket.cst))
-#define H_SWEEP(h, g)   (H_BYTE((h)->bucket.cst) <= 1 &&                                              \
+#define H_SWEEP(h, g)   (H_CANON((h)->bucket.cst) &&                                              \
                          ((g) >= H_SPAN(h) ||                                                         \
-                          (H_BYTE((h)->bucket.at[g].cst) <= 1 &&                                      \
+                          (H_CANON((h)->bucket.at[g].cst) &&                                      \
                            (!H_PEND(h) || (((g) >= (h)->bucket.rh.clean) && ((g) < (h)->bucket.count)) || \
                             H_CLEAN_AT(h, g)))))
 #define H_USES_STUBS(h) ((h)->bucket.hash == vf_hash_stub1 &&                                        \
@@ -148,13 +166,13 @@ static void cstl_clean_bucket(
 REQUIRES(H_OBJ(h))
 #endif
 REQUIRES(H_IS_BUCKET(h, bk))
-REQUIRES(vf_w_g < h->bucket.capacity && vf_dirty_cleaned <= ((size_t)1 << 40))
+REQUIRES(vf_w_g < h->bucket.capacity && vf_dirty_cleaned <= ((size_t)1 << 40) && H_CANON(h->bucket.cst))
 ASSIGNS(vf_dirty_cleaned, __CPROVER_object_whole(h->bucket.at))
 
-ENSURES(H_BYTE(bk->cst) == H_BYTE(h->bucket.cst))
+ENSURES(H_BYTE(bk->cst) == H_BYTE(h->bucket.cst) && H_CANON(bk->cst))
 ENSURES(vf_dirty_cleaned == OLD(vf_dirty_cleaned) + (OLD(H_BYTE(bk->cst)) != H_BYTE(h->bucket.cst) ? 1 : 0))
-ENSURES(H_BUCKET_IDX(bk) == vf_w_g || OLD(H_BYTE(h->bucket.at[vf_w_g].cst)) > 1 ||
-        H_BYTE(h->bucket.at[vf_w_g].cst) == OLD(H_BYTE(h->bucket.at[vf_w_g].cst)))
+ENSURES(H_BUCKET_IDX(bk) == vf_w_g || !H_CANON_OLD(h->bucket.at[vf_w_g].cst) ||
+        (H_BYTE(h->bucket.at[vf_w_g].cst) == OLD(H_BYTE(h->bucket.at[vf_w_g].cst)) && H_CANON(h->bucket.at[vf_w_g].cst)))
 ;
 
 /* C19: the sweep.  Cleans at most n dirty buckets, advances by at least min(n, rest),
@@ -184,7 +202,7 @@ ENSURES((!H_PEND(h) && vf_w_g < OLD(h->bucket.count)) ==> H_CLEAN_AT(h, vf_w_g))
 /* a clean bucket stays clean */
 ENSURES(OLD(H_BYTE(h->bucket.at[vf_w_g].cst)) == H_BYTE(h->bucket.cst) ==> H_CLEAN_AT(h, vf_w_g))
 /* stamps stay well-formed */
-ENSURES(OLD(H_BYTE(h->bucket.at[vf_w_g].cst)) <= 1 ==> H_BYTE(h->bucket.at[vf_w_g].cst) <= 1)
+ENSURES(H_CANON_OLD(h->bucket.at[vf_w_g].cst) ==> H_CANON(h->bucket.at[vf_w_g].cst))
 ENSURES(h->bucket.capacity == OLD(h->bucket.capacity) && h->bucket.at == OLD(h->bucket.at) &&
         h->bucket.cst == OLD(h->bucket.cst) && h->count == OLD(h->count))
 ;
@@ -210,7 +228,7 @@ ENSURES(h->bucket.count == (O_PEND(h) ? OLD(h->bucket.rh.count) : OLD(h->bucket.
 ENSURES(h->bucket.hash == (O_PEND(h) ? OLD(h->bucket.rh.hash) : OLD(h->bucket.hash)))
 ENSURES((O_PEND(h) && vf_w_g < OLD(h->bucket.count)) ==> H_CLEAN_AT(h, vf_w_g))
 ENSURES(OLD(H_BYTE(h->bucket.at[vf_w_g].cst)) == H_BYTE(h->bucket.cst) ==> H_CLEAN_AT(h, vf_w_g))
-ENSURES(OLD(H_BYTE(h->bucket.at[vf_w_g].cst)) <= 1 ==> H_BYTE(h->bucket.at[vf_w_g].cst) <= 1)
+ENSURES(H_CANON_OLD(h->bucket.at[vf_w_g].cst) ==> H_CANON(h->bucket.at[vf_w_g].cst))
 ENSURES(h->bucket.capacity == OLD(h->bucket.capacity) && h->bucket.at == OLD(h->bucket.at) &&
         h->bucket.cst == OLD(h->bucket.cst) && h->count == OLD(h->count))
 #endif
@@ -258,7 +276,7 @@ ENSURES((h->bucket.at == NULL && h->bucket.capacity == 0) ||
         (h->bucket.capacity == sz && FRESH(h->bucket.at, sz * H_NB) &&
          (vf_u128)__CPROVER_OBJECT_SIZE(h->bucket.at) >= (vf_u128)sz * H_NB))
 #else
-REQUIRES(vf_w_g < h->bucket.capacity && H_BYTE(h->bucket.at[vf_w_g].cst) <= 1)
+REQUIRES(vf_w_g < h->bucket.capacity && H_CANON(h->bucket.at[vf_w_g].cst))
 /* failure: nothing changes and the old array stays allocated;
  * success: a separate live array of sz buckets whose first min(sz, old capacity) buckets are preserved */
 ENSURES((h->bucket.at == OLD(h->bucket.at) && h->bucket.capacity == OLD(h->bucket.capacity) &&
@@ -469,7 +487,7 @@ void h_clean_bucket_b(void)
     struct cstl_hash hh, * h = &hh;
     struct cstl_hash_bucket * bk;
     size_t j = nondet_size_t();
-    unsigned char old_g, old_bk;
+    _Bool old_gb, old_bkb;
     struct cstl_hash before;
     int i;
     VF_IN_SIZE(g); VF_IN_SIZE(capacity);
@@ -477,27 +495,27 @@ void h_clean_bucket_b(void)
     h->bucket.at = malloc(vf_w_capacity * H_NB);
     __CPROVER_assume(h->bucket.at != NULL);
     __CPROVER_assume(H_FLAT(h) && H_PEND(h) && h->bucket.hash == vf_hash_stub1 && h->bucket.rh.hash == vf_hash_stub2);
-    __CPROVER_assume(j < vf_w_capacity && vf_w_g < vf_w_capacity && H_BYTE(h->bucket.cst) <= 1);
+    __CPROVER_assume(j < vf_w_capacity && vf_w_g < vf_w_capacity && H_CANON(h->bucket.cst));
     bk = &h->bucket.at[j];
-    __CPROVER_assume(H_BYTE(bk->cst) <= 1);
+    __CPROVER_assume(H_CANON(bk->cst));
     bk->n = VF_CHAIN > 0 ? &vf_chain_nodes[0] : NULL;
     for (i = 0; i < VF_CHAIN; i++) {
         vf_chain_nodes[i].next = i + 1 < VF_CHAIN ? &vf_chain_nodes[i + 1] : NULL;
     }
-    old_g = H_BYTE(h->bucket.at[vf_w_g].cst);
-    old_bk = H_BYTE(bk->cst);
+    old_gb = h->bucket.at[vf_w_g].cst;
+    old_bkb = bk->cst;
     before = *h;
     vf_dirty_cleaned = 0; vf_hash_calls1 = 0; vf_hash_calls2 = 0;
     cstl_clean_bucket(h, bk);
-    VF_ASSERT(H_BYTE(bk->cst) == H_BYTE(h->bucket.cst), "clean_bucket: the bucket is clean afterwards");
-    VF_ASSERT(j == vf_w_g || old_g > 1 || H_BYTE(h->bucket.at[vf_w_g].cst) == old_g, "clean_bucket: no other stamp changes");
-    VF_ASSERT(vf_hash_calls1 == 0 && vf_hash_calls2 == (old_bk != H_BYTE(h->bucket.cst) ? VF_CHAIN : 0),
+    VF_ASSERT(H_BYTE(bk->cst) == H_BYTE(h->bucket.cst) && H_CANON(bk->cst), "clean_bucket: the bucket is clean afterwards (well-formed stamp)");
+    VF_ASSERT(j == vf_w_g || !H_CANON(old_gb) || (h->bucket.at[vf_w_g].cst == old_gb && H_CANON(h->bucket.at[vf_w_g].cst)), "clean_bucket: no other stamp changes");
+    VF_ASSERT(vf_hash_calls1 == 0 && vf_hash_calls2 == (old_bkb != h->bucket.cst ? VF_CHAIN : 0),
               "clean_bucket: one consultation of the pending function per relocated node, none for a clean bucket");
     VF_ASSERT(before.bucket.at == h->bucket.at && before.bucket.count == h->bucket.count && before.bucket.capacity == h->bucket.capacity &&
               before.bucket.hash == h->bucket.hash && before.bucket.rh.hash == h->bucket.rh.hash && before.bucket.rh.count == h->bucket.rh.count &&
               before.bucket.rh.clean == h->bucket.rh.clean && before.count == h->count && before.off == h->off &&
               H_BYTE(before.bucket.cst) == H_BYTE(h->bucket.cst), "clean_bucket: the table header is not written");
-    VF_REACH(old_bk != H_BYTE(h->bucket.cst), "dirty bucket cleaned");
+    VF_REACH(old_bkb != h->bucket.cst, "dirty bucket cleaned");
     VF_END();
 }
 
